@@ -65,6 +65,8 @@ def install(extra=None, scalars=True):
                 _set(m, "max", core.sym_max)
                 _set(m, "min", core.sym_min)
                 _set(m, "round", core.sym_round)
+                if n == "osyris.plot.utils":
+                    _set(m, "range", core.sym_range)
         STUBS.append("int/float/max/min/round look-alikes (truncating int(), banker's round(), If-merging max/min)")
     for n, d in (extra or {}).items():
         for k, v in d.items():
